@@ -298,6 +298,22 @@ def _work_range(args):
                 break
             continue
         agg.add_case(i, case, sites, nt, oc, sample=(i == lo))
+        if i == lo:
+            first_sites = [(jkey(x["facts"]), x["ok"]) for x in sites]
+    # purity probe: the first case of the shard is executed again after every other case of the shard has run in this
+    # process; its verdicts must not depend on what ran in between (state kept between calls would show here)
+    if hi - lo > 1 and getattr(chk, "purity_probe", True) and not agg.harness_errors:
+        try:
+            again = [(jkey(x["facts"]), x["ok"]) for x in chk.run_case(sp[lo])[0]]
+            if again != first_sites:
+                changed = [f for (f, ok), (f2, ok2) in zip(first_sites, again) if f == f2 and ok != ok2][:1]
+                agg.add_case(lo, sp[lo], [site(False, {"field": "purity_probe", "shard_first_case": lo},
+                                               fail="verdict_depends_on_earlier_calls_in_the_process",
+                                               site=short(changed[0], 200) if changed else "site list differs")], None, None)
+            else:
+                agg.extra["purity_probes_passed"] += 1
+        except Exception:
+            agg.harness_errors.append({"index": lo, "case": sp[lo], "tb": traceback.format_exc()})
     return agg
 
 
